@@ -202,6 +202,11 @@ def topoB : List Nat → List Op → Bool
   | _, [] => true
   | named, o :: os => (named.contains o.dst || named.contains o.src) && topoB (o.dst :: named) os
 
+/-- every delivered cell is an initially named cell or the target of some operation
+(an item created outside of any link scope is not) -/
+def coveredB (named : List Nat) (ops : List Op) (D : List Nat) : Bool :=
+  D.all fun c => named.contains c || ops.any fun o => o.dst == c
+
 /-! ### reading the results (FlatConverter::PresolveNames) -/
 
 /-- variables and objectives: `return dest_` copy-constructs every element (one more counted copy),
